@@ -43,3 +43,15 @@ Example xml_scanner_ok :
   xml_err_order = ["s.err == io.EOF -> return nil"; "s.err != nil -> return s.err";
                    "s.closed -> return osm.ErrScannerClosed"; "return s.ctx.Err()"].
 Proof. repeat split; reflexivity. Qed.
+
+(* every blocking operation of the three kinds of goroutine is one the model has: each select has
+   exactly the data case and the ctx.Done case (no timer, no default, no missing Done), the only
+   channel operation outside a select is the push of a resumed file's first block, and Start uses
+   no timers (Pipeline/Model.v: step_reader, step_worker, step_ser) *)
+Example blocking_ops_ok :
+  reader_selects = ["<-dec.ctx.Done() | input <- pair"] /\
+  worker_selects = ["<-dec.ctx.Done() | output <- out"] /\
+  ser_selects = ["<-dec.ctx.Done() | p = <-output"; "<-dec.ctx.Done() | dec.serializer <- p"] /\
+  reader_bare_chan_ops = ["dec.inputs[0] <- iPair{Offset: 0, Blob: blob, Err: err}"] /\
+  worker_bare_chan_ops = [] /\ ser_bare_chan_ops = [] /\ start_uses_timers = false.
+Proof. repeat split; reflexivity. Qed.
